@@ -509,6 +509,14 @@ class Interp:
                 v = f.locals[name]
                 if v is _UNBOUND:
                     raise Unsupported(f"loop-carried variable {name!r} needs an invariant")
+                if isinstance(v, _Carried):
+                    raise Unsupported(f"loop-carried variable {name!r} needs an invariant")
+                if isinstance(v, _Poison):
+                    raise Unsupported(f"value of {name!r} after a summarised loop is not expressible")
+                if isinstance(v, _PostLoop):
+                    # defined only when the loop body ran at least once (NameError/UnboundLocalError otherwise)
+                    self.raise_if(z3.Not(v.n > 0), "UnboundLocalError")
+                    return v.value
                 return v
             f = f.enclosing
         mod = self.cur_module()
@@ -1246,6 +1254,19 @@ class Interp:
                 self.frames.pop()
         if fn.is_generator:
             fr.yields = []
+
+            def run_generator():
+                self.frames.append(fr)
+                try:
+                    try:
+                        self.exec_block(fn.node.body)
+                    except ReturnSignal:
+                        pass
+                finally:
+                    self.frames.pop()
+                return self.finish_generator(fr).seq
+
+            return GenV(None, run_generator)
         self.frames.append(fr)
         try:
             try:
@@ -1255,8 +1276,6 @@ class Interp:
                 rv = r.value
         finally:
             self.frames.pop()
-        if fn.is_generator:
-            return self.finish_generator(fr)
         return rv
 
     def finish_generator(self, fr):
@@ -1499,6 +1518,8 @@ class Interp:
     # iteration ------------------------------------------------------------
     def iter_seq(self, v):
         """Normalise an iterable into PyList (concrete length) or SSeq."""
+        if type(v).__name__ == "OpaqueMsg":
+            raise Unsupported("iteration over a message-only value outside a comprehension")
         if isinstance(v, GenV):
             return v.seq
         if isinstance(v, PyList):
@@ -1578,7 +1599,14 @@ class Interp:
         if len(gens) != 1:
             return self.comprehension_nested(gens, elt_thunk)
         g = gens[0]
-        it = self.iter_seq(self.eval(g.iter))
+        itv = self.eval(g.iter)
+        if type(itv).__name__ == "OpaqueMsg":
+            return itv  # message text only
+        if type(itv).__name__ == "OpaqueSet":
+            return itv.pvc_iter(self)
+        if hasattr(itv, "pvc_comprehension"):
+            return itv.pvc_comprehension(self, g, elt_thunk)
+        it = self.iter_seq(itv)
         fr = Frame(None, {}, self.frame)
         fr.is_comp = True
         fr.module = None
@@ -1768,12 +1796,30 @@ class Interp:
             self.loop_kinds.pop()
             self.loop_stack = self.loop_stack[:-1]
             del self.path.pc[saved_pc:]
-            # loop-local temporaries do not escape (python would keep the last value; not relied upon)
+            # python keeps the value of the LAST iteration in variables assigned by the body: value(idx := n-1) when n > 0,
+            # the previous value otherwise.  Values that cannot be expressed that way are poisoned (reading them is unsupported).
+            body_locals = dict(fr.locals)
             for name in assigned | _target_names(target):
-                if name in saved_locals:
-                    fr.locals[name] = saved_locals[name]
-                else:
+                last = body_locals.get(name, _UNBOUND)
+                prev = saved_locals.get(name, _UNBOUND)
+                newv = _UNBOUND
+                if last is not _UNBOUND and not isinstance(last, (_Carried,)) and not isinstance(last, Closure):
+                    try:
+                        at_last = subst(last, [(idx, n - 1)])
+                        if prev is _UNBOUND or isinstance(prev, _Carried):
+                            newv = _PostLoop(at_last, n, name)
+                        else:
+                            newv = merge_values(n > 0, at_last, prev)
+                    except Unsupported:
+                        newv = _Poison(name)
+                    except Exception:
+                        newv = _Poison(name)
+                elif prev is not _UNBOUND:
+                    newv = prev
+                if newv is _UNBOUND:
                     fr.locals.pop(name, None)
+                else:
+                    fr.locals[name] = newv
         self.apply_effects(eff, idx, n)
 
     def apply_effects(self, eff, idx, n):
@@ -1868,6 +1914,18 @@ class _Unbound:
 _UNBOUND = _Unbound()
 
 
+class _PostLoop:
+    """Variable first assigned inside a summarised loop: defined after the loop only if the loop ran (n > 0)."""
+
+    def __init__(self, value, n, name):
+        self.value, self.n, self.name = value, n, name
+
+
+class _Poison:
+    def __init__(self, name):
+        self.name = name
+
+
 class _Carried:
     """Marker for a variable defined before a loop and re-assigned in its body:
     reading it inside the summarised body means a loop-carried dependence."""
@@ -1888,10 +1946,18 @@ class SliceV:
 
 
 class GenV:
-    """Exhausted-on-demand generator: the sequence of yielded values."""
+    """Exhausted-on-demand generator: the sequence of yielded values (the body runs at first consumption, like python)."""
 
-    def __init__(self, seq):
-        self.seq = seq  # PyList | SSeq
+    def __init__(self, seq=None, thunk=None):
+        self._seq = seq  # PyList | SSeq
+        self._thunk = thunk
+
+    @property
+    def seq(self):
+        if self._seq is None:
+            self._seq = self._thunk()
+            self._thunk = None
+        return self._seq
 
 
 def wrap_b(x):
